@@ -23,6 +23,7 @@ CHECKS["C01"] = nhfamily.check_c01
 CHECKS["C04"] = nhfamily.check_c04
 CHECKS["C11"] = nhfamily.check_c11
 CHECKS["C16"] = nhfamily.check_c16
+CHECKS["C20"] = nhfamily.check_c20
 CHECKS["C09"] = logstore.check_c09
 CHECKS["C10"] = logstore.check_c10
 
